@@ -99,6 +99,77 @@ def check(ctx, rule: str, classes: List[ClassInfo], what: str):
                     f"object stores or clears is seen by all the others")
 
 
+def escaping_instance_state(prog: Program, classes: List[ClassInfo]) -> List[Tuple[ClassInfo, str, ast.AST, str]]:
+    """[(class, attribute, node, method qual)]: a container an instance keeps mutating (self.<attr>[k] = v, self.<attr>.update(..)) is put - the
+    object itself, not a copy - into a class-level or module-level container (a cache, a registry): what a later call does to the instance's
+    own result is then seen by every other user of that container.  Copies (dict(x), x.copy(), list(x), deepcopy) are not reported."""
+    from .facts import strip
+    from .terms import summarize
+    out = []
+    for c in classes:
+        fam = prog.mro(c)
+        names = {k.name for k in fam} | {k.name for k in prog.subclasses(c)}
+        methods = [m for k in fam for m in k.methods.values() if m.params and m.kind not in ("staticmethod",)]
+        mutated = set()
+        for m in methods:
+            recv = m.params[0]
+            for n in ast.walk(m.node):
+                b = None
+                if isinstance(n, ast.Call) and isinstance(n.func, ast.Attribute) and n.func.attr in MUTATORS:
+                    b = n.func.value
+                elif isinstance(n, ast.Subscript) and isinstance(n.ctx, (ast.Store, ast.Del)):
+                    b = n.value
+                if isinstance(b, ast.Attribute) and isinstance(b.value, ast.Name) and b.value.id == recv:
+                    mutated.add(b.attr)
+        if not mutated:
+            continue
+        for m in methods:
+            recv = m.params[0]
+            s = None
+
+            def shared_base(b):
+                if isinstance(b, ast.Attribute) and isinstance(b.value, ast.Name) and (b.value.id in names or (b.value.id == recv and m.kind == "classmethod")):
+                    return True
+                if isinstance(b, ast.Attribute) and isinstance(b.value, ast.Call) and isinstance(b.value.func, ast.Name) and b.value.func.id == "type":
+                    return True
+                if isinstance(b, ast.Name) and b.id in prog.module_assigns(m.module) and _mutable(prog.module_assigns(m.module)[b.id]):
+                    return not any(isinstance(x, ast.Name) and isinstance(x.ctx, ast.Store) and x.id == b.id for x in ast.walk(m.node))
+                return False
+
+            def bare(v):
+                nonlocal s
+                if isinstance(v, (ast.Tuple, ast.List, ast.Set)):
+                    return next((r for e in v.elts for r in [bare(e)] if r), None)
+                if isinstance(v, ast.Dict):
+                    return next((r for e in v.values for r in [bare(e)] if r), None)
+                if isinstance(v, ast.IfExp):
+                    return bare(v.body) or bare(v.orelse)
+                if isinstance(v, ast.Attribute) and isinstance(v.value, ast.Name) and v.value.id == recv and v.attr in mutated:
+                    return v.attr
+                if isinstance(v, ast.Name):
+                    s = s or summarize(prog, m)
+                    t = s.ta.terms_at.get(v)
+                    t = strip(t) if t is not None else None
+                    if t is not None and t[0] == "attr" and t[1] == ("param", recv) and t[2] in mutated:
+                        return t[2]
+                return None
+            for n in ast.walk(m.node):
+                vals, base = [], None
+                if isinstance(n, ast.Assign) and any(isinstance(t, ast.Subscript) for t in n.targets):
+                    base = next(t.value for t in n.targets if isinstance(t, ast.Subscript))
+                    vals = [n.value]
+                elif isinstance(n, ast.Call) and isinstance(n.func, ast.Attribute) and n.func.attr in ("append", "add", "insert", "extend", "update", "setdefault", "__setitem__", "appendleft"):
+                    base = n.func.value
+                    vals = list(n.args) + [k.value for k in n.keywords]
+                if base is None or not shared_base(base):
+                    continue
+                for v in vals:
+                    a = bare(v)
+                    if a:
+                        out.append((c, a, n, m.qual))
+    return out
+
+
 def held_buffer_mutations(prog: Program, fn) -> List[Tuple[str, str]]:
     """[(attribute, mutation as text)]: in-place stores / mutator calls in `fn` (helpers seen through) on a buffer that is - on some path -
     the object kept in an attribute of the receiver (self.x / cls.x), e.g. a cached header patched per call."""
